@@ -567,6 +567,27 @@ def image_extra(ck: Ck, n: int) -> None:
             ents2.reverse()
             if U.image_write((version, ents2)) != data:
                 ck.violation('scenes-image:order-dependent', 'the file depends on the order in which entries are passed', {'format': 'scenes-image', 'spec': spec})
+            # (e) the documented dict form (ScenesImage = dict keyed by checksum) with entries renamed after insertion: assigning
+            # Entry.filename recalculates Entry.checksum, the dict key stays; the table must be sorted by what is *stored* in it
+            ents3 = U.image_build(spec)[1]
+            if len(ents3) >= 2:
+                img3 = {e.checksum: e for e in reversed(ents3)}
+                for k, e in enumerate(ents3):
+                    if k % 2 == 0:
+                        e.filename = f'scenes/renamed_{k}_{e.checksum & 0xFF}.vcd'
+                if len({e.checksum for e in ents3}) == len(ents3):
+                    d3 = U.image_write((version, img3))
+                    crcs3 = U.image_table_crcs(d3)
+                    if crcs3 != sorted(crcs3):
+                        ck.violation('scenes-image:table-not-sorted:renamed-entries', 'entry table is not sorted by the stored CRC when the image is a dict '
+                                     'whose entries were renamed after insertion (keys no longer equal Entry.checksum)',
+                                     {'format': 'scenes-image', 'spec': spec, 'crcs': crcs3})
+                    elif sorted(crcs3) != sorted(e.checksum for e in ents3):
+                        ck.violation('scenes-image:table-crcs-wrong:renamed-entries', 'entry table does not hold the current checksums of the entries',
+                                     {'format': 'scenes-image', 'spec': spec, 'crcs': crcs3})
+                    elif d3 != U.image_write((version, ents3)):
+                        ck.violation('scenes-image:order-dependent:dict', 'the file depends on whether entries are passed as a dict or as a list',
+                                     {'format': 'scenes-image', 'spec': spec})
             # (d) summaries consistent with the scene after the round trip
             for e in img.values():
                 again = Entry.from_scene('x', e.data)
